@@ -240,6 +240,55 @@ def run(ctx):
             meta.append((desc, "%s %s %s" % (infoA["type"], infoA["data_type"], " ".join(
                 "%s:%s" % (s.get("encoding", "-"), ".".join(map(str, s["compressed_segmentation_block_size"]))
                            if "compressed_segmentation_block_size" in s else "-") for s in infoA["scales"]))))
+            # model: the documented sequence's info and the downscaling method each program resolves
+            from neuroglancer_scripts import downscaling as _ds
+            _names = {"AveragingDownscaler": "average", "MajorityDownscaler": "majority", "StridingDownscaler": "stride"}
+
+            def _resolved(info_):
+                try:
+                    return _names.get(type(_ds.get_downscaler(method or "auto", info_, {})).__name__, "?")
+                except Exception as exc:  # noqa
+                    return type(exc).__name__
+            reqs.append("pipeline-stepwise %d %s %s %s %s %s %s %s" % (
+                nscales, ty or "-", enc or "-", fr.get("type", "-"), fr["data_type"], fs0.get("encoding", "-"),
+                core.ilist(blk) if blk else "-", method or "auto"))
+            meta.append((dict(desc, corr="pipeline-stepwise"), "%s %s %s | %s %s" % (
+                infoB["type"], infoB["data_type"], " ".join(
+                    "%s:%s" % (s.get("encoding", "-"), ".".join(map(str, s["compressed_segmentation_block_size"]))
+                               if "compressed_segmentation_block_size" in s else "-") for s in infoB["scales"]),
+                _resolved(infoB), _resolved(infoA))))
+            # model: the levels are successive downscalings (Pipeline.computeScales over the model downscalers), from the
+            # first level that is small enough to be sent to the driver; needs one channel, an integer type below 64
+            # bits and isotropic halving of every axis between the levels compared
+            sizes = [sc["size"] for sc in infoA["scales"]]
+            res = [sc["resolution"] for sc in infoA["scales"]]
+            L0 = next((i for i, sz in enumerate(sizes) if sz[0] * sz[1] * sz[2] <= 250000), None)
+            meth = _resolved(infoA)
+            facs = [[int(round(res[i + 1][a] / res[i][a])) for a in range(3)] for i in range(nscales - 1)]
+            regular = all(f in (1, 2) for fl in facs for f in fl) and all(
+                sizes[i + 1][a] == -(-sizes[i][a] // facs[i][a]) for i in range(nscales - 1) for a in range(3))
+            why = ("no small level" if L0 is None else "single level" if L0 >= nscales - 1 else
+                   "channels" if infoA["num_channels"] != 1 else "data type" if infoA["data_type"] not in ("uint8", "uint16", "uint32")
+                   else "jpeg" if (enc or "raw") == "jpeg" else "method " + meth if meth not in ("average", "majority", "stride")
+                   else "irregular sizes" if not regular else "compared")
+            ctx.hist("level_chain", why)
+            if why == "compared":
+                def _assemble(i):
+                    sc = infoA["scales"][i]
+                    full = np.zeros((sc["size"][2], sc["size"][1], sc["size"][0]), dtype=np.int64)
+                    for c, arr in decA[sc["key"]].items():
+                        full[c[4]:c[5], c[2]:c[3], c[0]:c[1]] = arr[0]
+                    return full
+                lv = [_assemble(i) for i in range(L0, nscales)]
+                z0 = sizes[L0]
+                reqs.append("pipeline-levels %s %s %s %s %d %s %s" % (
+                    meth, infoA["data_type"], core.ilist([z0[2], z0[1], z0[0]]),
+                    outside if (outside is not None and meth == "average") else "none", len(lv),
+                    "/".join("%d.%d.%d" % (f[2], f[1], f[0]) for f in facs[L0:]),
+                    core.ilist(int(v) for v in lv[0].ravel())))
+                meta.append((dict(desc, corr="pipeline-levels", from_level=L0, method=meth),
+                             ";".join(core.ilist(int(v) for v in x.ravel()) for x in lv) + ";0"))
+                ctx.bump("level_chains_compared")
             # ---- repetition of data-writing steps ----
             ref = digest(decB)
             rep = rng.choice([["volume_to_precomputed"], ["compute_scales"], ["volume_to_precomputed", "compute_scales"],
@@ -302,7 +351,7 @@ def run(ctx):
     if ctx.driver_ok and reqs:
         for rep, (desc, impl) in zip(core.driver_batch(reqs), meta):
             if rep != impl:
-                ctx.corr_mismatch("pipeline-info", desc, impl, rep)
+                ctx.corr_mismatch(desc.get("corr", "pipeline-info"), desc, impl[:300], rep[:300])
 
 
 def sharded_and_obstructed(ctx):
